@@ -14,10 +14,11 @@ import Mathlib.Tactic
       pi(x) = exp(beta * logL(x)) for every pair of states and all parameters  (C03_tpcn_interior, C03_rwm_interior);
     * RWM with a periodic or reflective coordinate: the folded proposal (C16) is symmetric, so detailed balance
       holds  (C03_rwm_periodic, C03_rwm_reflective);
-    * the two recorded defects are NOT provable, and why: machine-checked counter-examples
-      C03_truncation_flow_asymmetric (F16: "redraw until inside" divides the flow by the inside mass C(x)) and
-      C03_tpcn_fold_not_hastings (F17: the Student-t ratio at the folded point is not the Hastings ratio of the
-      folded proposal);
+    * hard boundaries, as the code is since 9001dc4 (out-of-cube proposals are rejected): detailed balance w.r.t.
+      pi·1_cube for every pair of points (C03_hard_boundary_reject, C03_tpcn_hard_reject, C03_rwm_hard_reject);
+      C03_truncation_flow_asymmetric documents why the OLD "redraw until inside" was wrong (F16, fixed);
+    * the recorded defect F17 is NOT provable, and why: C03_tpcn_fold_not_hastings (the Student-t ratio at the folded
+      point is not the Hastings ratio of the folded proposal);
     * a THIRD defect found while building this check (F21): reflective coordinates with a correlated proposal covariance
       (d ≥ 2) — the n-dimensional reflective statement needs the increment density to be even in each reflective
       coordinate (fold_reflective_symmetric_nd); C03_reflect_correlated_asymmetric is the counter-example otherwise;
@@ -60,7 +61,7 @@ macro "kernel_bridge" : tactic => `(tactic| (
   simp only [Gen.Kernel.gammaShape, Gen.Kernel.gammaScale, Gen.Kernel.sFromGamma, Gen.Kernel.tpcnMuCoef,
     Gen.Kernel.tpcnDiffCoef, Gen.Kernel.tpcnNoiseScale, Gen.Kernel.tpcnLogFactor, Gen.Kernel.rwmUCoef,
     Gen.Kernel.rwmNoiseScale, Gen.Kernel.rwmLogFactor, Gen.Kernel.acceptProb, Gen.Kernel.acceptDecision,
-    Gen.Kernel.tpcnAdapt, Gen.Kernel.rwmAdapt,
+    Gen.Kernel.tpcnAdapt, Gen.Kernel.rwmAdapt, Gen.Kernel.alphaOutOfBounds, Model.Kernel.alphaOutOfBounds,
     Model.Kernel.gammaShape, Model.Kernel.gammaScale, Model.Kernel.sFromGamma, Model.Kernel.diffCoef,
     Model.Kernel.noiseScale, Model.Kernel.logT, Model.Kernel.tpcnLogFactor, Model.Kernel.rwmLogFactor,
     Model.Kernel.acceptProb, Model.Kernel.acceptDecision, Model.Kernel.adaptRaw, Model.Kernel.tpcnAdapt,
@@ -112,6 +113,10 @@ theorem gen_eq_canon_rwmLogFactor : (Gen.Kernel.rwmLogFactor : ℝ) = Model.Kern
 
 theorem gen_eq_canon_acceptProb (beta l lp factor : ℝ) :
     Gen.Kernel.acceptProb beta l lp factor = Model.Kernel.acceptProb beta l lp factor := by
+  kernel_bridge
+
+theorem gen_eq_canon_alphaOutOfBounds (alpha : ℝ) :
+    Gen.Kernel.alphaOutOfBounds alpha = Model.Kernel.alphaOutOfBounds alpha := by
   kernel_bridge
 
 theorem gen_eq_canon_acceptDecision (r alpha : ℝ) :
@@ -404,7 +409,55 @@ theorem C03_reflect_correlated_asymmetric :
     diagFolded (0, 0) (1, 1) + diagFolded (0, 1) (1, 1) + diagFolded (1, 0) (1, 1) + diagFolded (1, 1) (1, 1) = 2 := by
   refine ⟨?_, ?_, ?_⟩ <;> (simp [diagFolded, diagK, cellFold]; try norm_num)
 
-/-! ## 6. why the hard-boundary cells fail (F16): truncation by redraw -/
+/-! ## 6. hard boundaries: out-of-cube proposals are rejected (the code after the fix of F16) -/
+
+/-- the code's acceptance for a move whose proposal passed (`inb = true`) or failed `check_bounds`:
+    `alpha[~in_bounds] = …` as GENERATED (`Gen.Kernel.alphaOutOfBounds`) -/
+noncomputable def boundedAccept (inb : Bool) (a : ℝ) : ℝ := if inb then a else Gen.Kernel.alphaOutOfBounds a
+
+/-- target restricted to the cube: `π` inside, 0 outside -/
+noncomputable def cubeWeight (inside : Bool) (p : ℝ) : ℝ := if inside then p else 0
+
+theorem boundedAccept_outside (a : ℝ) : boundedAccept false a = 0 := by
+  simp [boundedAccept, gen_eq_canon_alphaOutOfBounds, Model.Kernel.alphaOutOfBounds]
+
+/-- **Rejection instead of truncation**: let `q` be the UNTRUNCATED proposal density on all of ℝ^d (or its periodic /
+    reflective fold in the designated coordinates), reversible w.r.t. the reference `g` as proved in the interior, and let the
+    acceptance be the MH ratio for proposals inside the cube and the generated out-of-bounds value (0) outside.  Then detailed
+    balance holds w.r.t. `π·1_cube` for EVERY pair of points of ℝ^d: inside–inside it is the interior identity, and every
+    flow that involves a point outside the cube is 0 in both directions. -/
+theorem C03_hard_boundary_reject (inX inY : Bool) (px py gx gy qxy qyx : ℝ) (hpx : 0 < px) (hpy : 0 < py)
+    (hgx : 0 < gx) (hgy : 0 < gy) (hrev : gx * qxy = gy * qyx) :
+    cubeWeight inX px * qxy * boundedAccept inY (min 1 (py * gx / (px * gy)))
+      = cubeWeight inY py * qyx * boundedAccept inX (min 1 (px * gy / (py * gx))) := by
+  cases inX <;> cases inY
+  · simp [cubeWeight]
+  · simp [cubeWeight, boundedAccept_outside]
+  · simp [cubeWeight, boundedAccept_outside]
+  · simpa [cubeWeight, boundedAccept] using C03_mh_detailed_balance px py gx gy qxy qyx hpx hpy hgx hgy hrev
+
+/-- tpCN with hard boundaries, as the code is now: detailed balance w.r.t. `exp(β·logL)·1_cube` for every pair of points
+    (`inX`, `inY`: whether x, y lie in the cube) -/
+theorem C03_tpcn_hard_reject (inX inY : Bool) (d ν σ β lx ly δx δy δxy : ℝ) (hν : 0 < ν) (hσ0 : 0 < σ) (hσ1 : σ < 1)
+    (hx : 0 ≤ δx) (hy : 0 ≤ δy) :
+    cubeWeight inX (exp (β * lx)) * tpcnQ d ν σ δx δy δxy
+        * boundedAccept inY (Gen.Kernel.acceptProb β lx ly (Gen.Kernel.tpcnLogFactor d ν δx δy))
+      = cubeWeight inY (exp (β * ly)) * tpcnQ d ν σ δy δx δxy
+        * boundedAccept inX (Gen.Kernel.acceptProb β ly lx (Gen.Kernel.tpcnLogFactor d ν δy δx)) := by
+  rw [C03_accept_is_mh_tpcn d ν β lx ly δx δy hν hx hy, C03_accept_is_mh_tpcn d ν β ly lx δy δx hν hy hx]
+  exact C03_hard_boundary_reject inX inY _ _ _ _ _ _ (exp_pos _) (exp_pos _) (tker_pos d ν δx hν hx)
+    (tker_pos d ν δy hν hy) (C03_tpcn_reversible_wrt_t d ν σ δx δy δxy hν hσ0 hσ1 hx hy)
+
+/-- RWM with hard boundaries (in the non-designated coordinates), as the code is now: any symmetric proposal density — the
+    even increment density itself, or its periodic / reflective fold of §5 — gives detailed balance w.r.t.
+    `exp(β·logL)·1_cube` for every pair of points -/
+theorem C03_rwm_hard_reject (inX inY : Bool) (β lx ly qxy qyx : ℝ) (hq : qxy = qyx) :
+    cubeWeight inX (exp (β * lx)) * qxy * boundedAccept inY (Gen.Kernel.acceptProb β lx ly Gen.Kernel.rwmLogFactor)
+      = cubeWeight inY (exp (β * ly)) * qyx * boundedAccept inX (Gen.Kernel.acceptProb β ly lx Gen.Kernel.rwmLogFactor) := by
+  rw [C03_accept_is_mh_rwm, C03_accept_is_mh_rwm]
+  exact C03_hard_boundary_reject inX inY _ _ 1 1 qxy qyx (exp_pos _) (exp_pos _) one_pos one_pos (by rw [hq])
+
+/-! ### the OLD behaviour (F16, repaired in 9001dc4): why "redraw until inside" was wrong -/
 
 /-- "Redraw until inside": the proposal from `x` is `k(x,·)/C(x)` on the cube, `C(x)` the inside mass.  With a
     symmetric part `S(x,y) = S(y,x) ≠ 0` (for RWM `S = k·min(π(x),π(y))`, for tpCN `S = t(x)q(x,y)·min(π/t)`) the flow
@@ -421,7 +474,7 @@ def toyK (x y : ℤ) : ℚ := if (x - y).natAbs ≤ 1 then 1 / 3 else 0
 def toyC (x : ℤ) : ℚ := toyK x 0 + toyK x 1 + toyK x 2
 /-- uniform target on the three inside states -/
 def toyPi (_ : ℤ) : ℚ := 1 / 3
-/-- flow of the kernel AS THE CODE BUILDS IT: redraw until inside, Metropolis acceptance without a correction -/
+/-- flow of the kernel AS THE CODE BUILT IT before 9001dc4: redraw until inside, Metropolis acceptance without a correction -/
 def toyFlow (x y : ℤ) : ℚ := toyPi x * (toyK x y / toyC x) * min 1 (toyPi y / toyPi x)
 
 theorem toyK_symm (x y : ℤ) : toyK x y = toyK y x := by
@@ -429,7 +482,7 @@ theorem toyK_symm (x y : ℤ) : toyK x y = toyK y x := by
   have : (x - y).natAbs = (y - x).natAbs := by omega
   rw [this]
 
-/-- **F16**: symmetric proposal, uniform target, inside masses `C(0) = 2/3 ≠ 1 = C(1)` ⇒ the flows differ
+/-- **F16 (old code)**: symmetric proposal, uniform target, inside masses `C(0) = 2/3 ≠ 1 = C(1)` ⇒ the flows differ
     (`1/6` from the edge state, `1/9` into it): detailed balance fails at a hard boundary. -/
 theorem C03_truncation_flow_asymmetric :
     toyC 0 = 2 / 3 ∧ toyC 1 = 1 ∧ toyFlow 0 1 = 1 / 6 ∧ toyFlow 1 0 = 1 / 9 ∧ toyFlow 0 1 ≠ toyFlow 1 0 := by
@@ -474,22 +527,28 @@ theorem C03_tpcn_fold_not_hastings :
 
 /-! ## 8. structure of one step (from the regenerated statement tables) -/
 
-/-- `_adapt_sigma` is applied once per step, after proposals, factor, acceptance and the state update: one step uses one
-    fixed σ per cluster. -/
+/-- order of one step: proposals, then the bounds check (out-of-cube walkers keep their current point), factor, alpha,
+    out-of-bounds alpha overwritten, only then the uniform draw / accept / update; `_adapt_sigma` is applied once per step
+    after all of that: one step uses one fixed σ per cluster. -/
 theorem C03_sigma_fixed_within_step :
     Gen.Kernel.stepOrder.count .adapt = 1 ∧ Gen.Kernel.stepOrder.count .propose = 1 ∧
-    Gen.Kernel.stepOrder.idxOf .propose < Gen.Kernel.stepOrder.idxOf .factor ∧
-    Gen.Kernel.stepOrder.idxOf .factor < Gen.Kernel.stepOrder.idxOf .accept ∧
+    Gen.Kernel.stepOrder.idxOf .propose < Gen.Kernel.stepOrder.idxOf .boundsCheck ∧
+    Gen.Kernel.stepOrder.idxOf .boundsCheck < Gen.Kernel.stepOrder.idxOf .keepCurrent ∧
+    Gen.Kernel.stepOrder.idxOf .keepCurrent < Gen.Kernel.stepOrder.idxOf .transform ∧
+    Gen.Kernel.stepOrder.idxOf .transform < Gen.Kernel.stepOrder.idxOf .factor ∧
+    Gen.Kernel.stepOrder.idxOf .factor < Gen.Kernel.stepOrder.idxOf .alpha ∧
+    Gen.Kernel.stepOrder.idxOf .alpha < Gen.Kernel.stepOrder.idxOf .zeroOutOfBounds ∧
+    Gen.Kernel.stepOrder.idxOf .zeroOutOfBounds < Gen.Kernel.stepOrder.idxOf .accept ∧
     Gen.Kernel.stepOrder.idxOf .accept < Gen.Kernel.stepOrder.idxOf .update ∧
     Gen.Kernel.stepOrder.idxOf .update < Gen.Kernel.stepOrder.idxOf .adapt ∧
     Gen.Kernel.stepOrder.idxOf .adapt < Gen.Kernel.stepOrder.length := by
   decide
 
-/-- shape of the two `_propose` bodies: tpCN draws the gamma variate ONCE, before the redraw loop (a redraw keeps `s`);
-    each loop pass is draw → fold (`apply_boundary_conditions`) → `check_bounds`/return -/
+/-- shape of the two `_propose` bodies: ONE normal draw (tpCN: after one gamma draw), fold, return — no redraw loop and no
+    bounds check inside `_propose` (the caller rejects) -/
 theorem C03_propose_shape :
-    Gen.Kernel.tpcnProposeShape = [.gamma, .loop, .draw, .fold, .checkReturn] ∧
-    Gen.Kernel.rwmProposeShape = [.loop, .draw, .fold, .checkReturn] := by
+    Gen.Kernel.tpcnProposeShape = [.gamma, .draw, .fold, .ret] ∧
+    Gen.Kernel.rwmProposeShape = [.draw, .fold, .ret] := by
   decide
 
 /-! ## 9. non-vacuity -/
@@ -517,6 +576,16 @@ example (x y : ℝ) : exp (1 * 0) * exp (-((y - x) ^ 2) / (2 * (1/2) ^ 2)) *
       Gen.Kernel.acceptProb 1 0 3 Gen.Kernel.rwmLogFactor
     = exp (1 * 3) * exp (-((x - y) ^ 2) / (2 * (1/2) ^ 2)) * Gen.Kernel.acceptProb 1 3 0 Gen.Kernel.rwmLogFactor :=
   C03_rwm_interior (fun z => exp (-(z ^ 2) / (2 * (1/2) ^ 2))) (fun z => gauss_even (1/2) z) x y 1 0 3
+
+/-- inside → outside is never accepted, outside carries no mass: both flows vanish; inside ↔ inside is the interior flow -/
+example (x y : ℝ) : cubeWeight true (exp (1 * 0)) * exp (-((y - x) ^ 2) / 2)
+      * boundedAccept false (Gen.Kernel.acceptProb 1 0 3 Gen.Kernel.rwmLogFactor)
+    = cubeWeight false (exp (1 * 3)) * exp (-((x - y) ^ 2) / 2)
+      * boundedAccept true (Gen.Kernel.acceptProb 1 3 0 Gen.Kernel.rwmLogFactor) :=
+  C03_rwm_hard_reject true false 1 0 3 _ _ (by rw [← neg_sub x y, neg_sq])
+
+example : boundedAccept false (7 : ℝ) = 0 ∧ boundedAccept true (7 : ℝ) = 7 :=
+  ⟨boundedAccept_outside 7, by simp [boundedAccept]⟩
 
 example : ((1:ℝ) / (2/3) = 1 / 1 ↔ (2/3 : ℝ) = 1) :=
   C03_truncation_symmetric_iff 1 (2/3) 1 one_ne_zero (by norm_num) one_ne_zero
